@@ -24,7 +24,7 @@ for _v in ('OPENBLAS_NUM_THREADS', 'OMP_NUM_THREADS', 'MKL_NUM_THREADS'):
 import json, time, argparse
 sys.path.insert(0, os.path.dirname(os.path.abspath(__file__)))
 from common import *
-from oracle_C06 import trig_eval, spec_tail, all_attrs, SPLINES, P1, P2, P3
+from oracle_C06 import trig_eval, spec_tail, all_attrs, SPLINES, P1, P2, P3, EXTREMA, _cache, extremum_gap, extremum_curv, fft_derivative
 
 TWO_PI = 2 * np.pi
 QUICK = (31, 61, 121, 241)
@@ -40,16 +40,6 @@ SPECTRAL_SCALARS = dict(iota='1', iotaN='1', axis_length=('d_l_d_phi',), G0=('d_
                         B20_mean='2', B20_residual='2', G2='1', beta_1s='1', d2_volume_d_psi2='2', DGeod_times_r2='1', DWell_times_r2='2',
                         DMerc_times_r2='2')
 INVARIANT = ('helicity', 'N_helicity', 'nfp', 'nfourier', 'etabar', 'sigma0', 'B0', 'I2', 'sG', 'spsi', 'B2s', 'B2c', 'p2', 'Bbar', 'min_R0_threshold')
-
-
-def fft_derivative(y, period, order=1):
-    y = np.asarray(y, dtype=float)
-    N = len(y)
-    k = np.fft.rfftfreq(N, d=1.0 / N) * (TWO_PI / period)
-    c = np.fft.rfft(y) * (1j * k) ** order
-    if N % 2 == 0 and order % 2 == 1:
-        c[-1] = 0
-    return np.fft.irfft(c, N)
 
 
 def tails(q):
@@ -145,6 +135,7 @@ def ladder_check(cfg, rungs, rng, bad, stats):
     x = rng.random(32) * per
     tl = [tails(q) for q in qs]
     fl = [all_attrs(q) for q in qs]
+    _cache.clear()
     sym_branch = (cfg.get('sigma0', 0.0) == 0 and not np.any(np.asarray(cfg.get('rs', [0.0]))) and not np.any(np.asarray(cfg.get('zc', [0.0]))))
 
     def count(key):
@@ -171,7 +162,11 @@ def ladder_check(cfg, rungs, rng, bad, stats):
             t = tl[i][0] if src == '1' else tl[i][1] if src == '2' else max(spec_tail(getattr(qa, p)) for p in src)
             if t > 1e-6:
                 count('unresolved'); continue
-            tol = max(1e-8, K_TAIL * t)
+            tol = max(1e-8, (K_PROFILE if name in EXTREMA else K_TAIL) * t)
+            if name in EXTREMA and extremum_gap(qs[-1], name) <= 2.5 * (per / rungs[i]) ** 2 / 8 * extremum_curv(qs[-1], name):
+                # fourier_minimum refines the extremum next to the discrete arg-extremum only: with two competing local extrema closer in value
+                # than the sampling error of the grid it returns the wrong one until the grid separates them - not a convergence failure
+                count('ambiguous_extremum'); continue
             a, b = float(getattr(qa, name)), float(getattr(qb, name))
             n += 1
             e = abs(a - b) / natural_scale(qb, name, b)
